@@ -176,8 +176,16 @@ impl StreamId {
             }
         }
         
-        // Same millisecond, increment sequence
-        let seq = last_seq.fetch_add(1, Ordering::Relaxed);
+        // Same millisecond, increment sequence. A sequence that is used up carries over into the
+        // next millisecond: wrapping it to 0 would produce an id below the last one.
+        let seq = last_seq.load(Ordering::Relaxed);
+        if seq == u64::MAX {
+            let next_millis = prev_millis.saturating_add(1);
+            last_millis.store(next_millis, Ordering::Relaxed);
+            last_seq.store(0, Ordering::Relaxed);
+            return StreamId::new(next_millis, 0);
+        }
+        last_seq.store(seq + 1, Ordering::Relaxed);
         StreamId::new(prev_millis, seq + 1)
     }
     
@@ -367,6 +375,12 @@ impl Stream {
     pub fn add_with_id(&self, id: StreamId, fields: HashMap<Vec<u8>, Vec<u8>>) -> Result<(), &'static str> {
         let mut data = self.data.lock().unwrap();
         data.add_with_id(id, fields, self)
+    }
+    
+    /// True when the last id is the largest possible one: no further id can be generated
+    pub fn is_exhausted(&self) -> bool {
+        self.last_id_millis.load(Ordering::Relaxed) == u64::MAX
+            && self.last_id_seq.load(Ordering::Relaxed) == u64::MAX
     }
     
     /// Get length (lock-free atomic read - major performance win)
